@@ -101,6 +101,24 @@ def expand(task):
         return {'error': 'replay divergence at %r: %s' % (history, e)}
 
 
+def expand_deep(task):
+    """two-step successor signature of one state (merge check with lookahead 2)"""
+    cfg, history, _ = task
+    r = expand((cfg, history, False))
+    if 'error' in r:
+        return r
+    out = []
+    for rec in r['succ']:
+        sub = None
+        if not rec['cut']:
+            r2 = expand((cfg, tuple(history) + (rec['ev'],), False))
+            if 'error' in r2:
+                return r2
+            sub = _sig(r2['succ'])
+        out.append((rec['ev'], rec['aobs'], rec['key'], tuple(v[0] for v in rec['viol']), sub))
+    return {'sig2': out}
+
+
 def state_check(task):
     cfg, history = task
     w, mon = build(cfg, history)
@@ -160,7 +178,7 @@ def _sig(succ):
 
 
 def bfs(harness, cfg, depth, collector, seed=0, merge_all=False, keep_states=False, result=None,
-        run_state_checks=False):
+        run_state_checks=False, merge_lookahead=1):
     global HARNESS
     HARNESS = harness
     res = result or BFSResult()
@@ -193,6 +211,18 @@ def bfs(harness, cfg, depth, collector, seed=0, merge_all=False, keep_states=Fal
             for alt in pending_alt.pop(h, []):
                 alt_jobs.append((i, alt))
         alt_results = pmap(expand, [(cfg, a, False) for _, a in alt_jobs])
+        if merge_lookahead >= 2 and alt_jobs:
+            # the one-step check cannot see a hidden field whose effect shows two events later
+            reps = sorted(set(i for i, _ in alt_jobs))
+            deep_rep = dict(zip(reps, pmap(expand_deep, [(cfg, frontier[i], False) for i in reps])))
+            deep_alt = pmap(expand_deep, [(cfg, a, False) for _, a in alt_jobs])
+            for (i, alt), da in zip(alt_jobs, deep_alt):
+                if 'error' in da or 'error' in deep_rep[i]:
+                    raise HarnessError(da.get('error') or deep_rep[i].get('error'))
+                if da['sig2'] != deep_rep[i]['sig2']:
+                    diff = [(x, y) for x, y in zip(deep_rep[i]['sig2'], da['sig2']) if x != y][:1]
+                    raise HarnessError('ABSTRACTION-UNSOUND (two steps ahead): histories %r and %r share a canonical key but differ: %r'
+                                       % (frontier[i], alt, diff))
         for (i, alt), ar in zip(alt_jobs, alt_results):
             if 'error' in ar:
                 raise HarnessError(ar['error'])
